@@ -18,6 +18,7 @@ import (
 	"strings"
 	"sync"
 	"sync/atomic"
+	"syscall"
 	"time"
 
 	"verif/vlib"
@@ -332,6 +333,13 @@ func main() {
 		vlib.Fatal("cannot create %s: %v", workBase, err)
 	}
 	run := vlib.NewRun(*prop, "model_checking")
+	// resources must not grow with the number of import statements: the soft open-file limit is lowered to 512, and one of
+	// the termination families has more import statements than that
+	var rl syscall.Rlimit
+	if err := syscall.Getrlimit(syscall.RLIMIT_NOFILE, &rl); err == nil && rl.Cur > 512 {
+		rl.Cur = 512
+		_ = syscall.Setrlimit(syscall.RLIMIT_NOFILE, &rl)
+	}
 	x := &explorer{run: run, col: &collector{m: map[string]*entry{}}, triples: vlib.NewCounter(), classes: vlib.NewCounter(),
 		shapes: vlib.NewCounter(), sampled: map[string]bool{}}
 	if *replay != "" {
@@ -588,7 +596,7 @@ func terminationFamilies(x *explorer, run *vlib.Run) map[string]float64 {
 	fams = append(fams, fam{"layered-diamond-depth-12-closed", layeredDiamond(12, true)},
 		fam{"layered-diamond-depth-06-closed", layeredDiamond(6, true)})
 	chains := []int{2, 10, 50, 200}
-	dags := []int{6, 10, 12}
+	dags := []int{6, 10, 12, 40} // 40 files = 780 import statements, more than the lowered open-file limit (see main)
 	if run.Thorough() {
 		chains = append(chains, 1000)
 		dags = append(dags, 14, 16)
@@ -604,6 +612,26 @@ func terminationFamilies(x *explorer, run *vlib.Run) map[string]float64 {
 	}
 	var mu sync.Mutex
 	ms := map[string]float64{}
+	// the family that exceeds the open-file limit runs alone, after the others: a Generate that keeps its imports open
+	// must fail by itself, not make the harness's own file operations fail
+	var alone []fam
+	for i := 0; i < len(fams); i++ {
+		if fams[i].s.N >= 40 && strings.HasPrefix(fams[i].name, "complete-dag") {
+			alone = append(alone, fams[i])
+			fams = append(fams[:i], fams[i+1:]...)
+			i--
+		}
+	}
+	defer func() {
+		for _, f := range alone {
+			f := f
+			parallel(1, func(w *worker, _ int) {
+				for ai, pk := range [][]string{distinctPkgs(f.s.N), make([]string, f.s.N)} {
+					w.explore(f.s.withPkgs(pk), allPlacements[:1], "", ai, nil, "")
+				}
+			}, x)
+		}
+	}()
 	parallel(len(fams), func(w *worker, i int) {
 		f := fams[i]
 		for ai, pk := range [][]string{distinctPkgs(f.s.N), make([]string, f.s.N)} {
